@@ -172,6 +172,88 @@ def gate_sites():
     return out
 
 
+def enclosing_headers(src, start, pos):
+    """Headers (text before the `{`) of the blocks that enclose `pos`, scanning from `start` (a function's `{`)."""
+    stack = []
+    i = start
+    last = start
+    while i < pos:
+        c = src[i]
+        if c == "{":
+            hdr = src[last:i]
+            hdr = hdr[max(hdr.rfind(";"), hdr.rfind("}")) + 1:]
+            stack.append(hdr.strip())
+            last = i + 1
+        elif c == "}":
+            if stack:
+                stack.pop()
+            last = i + 1
+        elif c == ";":
+            last = i + 1
+        i += 1
+    return stack
+
+
+def trampoline_sites():
+    """Every direct call of a compiled callee's native entry `(func)(ctx)` in vm/jit.rs, and whether it sits in a loop."""
+    src = strip_comments(open(os.path.join(REPO, "steel_vm/vm/jit.rs")).read())
+    fns = [(m.start(), m.group(1)) for m in FN.finditer(src)]
+    out = []
+    for m in re.finditer(r"\(func\)\(ctx\)", src):
+        start, name = 0, "?"
+        for pos, n in fns:
+            if pos < m.start():
+                start, name = pos, n
+            else:
+                break
+        b0 = src.index("{", start)
+        hdrs = enclosing_headers(src, b0, m.start())
+        in_loop = any(re.match(r"(while|loop|for)\b", h.split("\n")[-1].strip()) or re.search(r"\b(while|loop)\b[^;{}]*$", h)
+                      for h in hdrs)
+        out.append({"fn": name, "line": src.count("\n", 0, m.start()) + 1, "in_loop": bool(in_loop)})
+    return out
+
+
+SWALLOW = [r"_\s*=>\s*None", r"if\s+let\s+Ok\(", r"\.ok\(\)", r"Err\(_\)\s*=>", r"unwrap_or"]
+
+
+def iteration_error_sites():
+    """Every call of a Steel callback inside the iterator pipelines of transducers.rs / lazy_stream.rs: does the code that
+    handles its result (the rest of the enclosing block) drop an `Err`, or fold without short-circuit?"""
+    out = []
+    for rel in ("steel_vm/transducers.rs", "steel_vm/lazy_stream.rs"):
+        src = strip_comments(open(os.path.join(REPO, rel)).read())
+        marks = [(m.start(), m.group(1)) for m in re.finditer(r"(?:Transducers|Reducer)::([A-Za-z]+)(?:\([^)]*\))?\s*=>", src)]
+        marks += [(m.start(), m.group(1)) for m in FN.finditer(src)]
+        marks.sort()
+        for m in re.finditer(r"\.(call_func_or_else(?:_two_args|_many_args)?|call_with_one_arg(?:_test::<true>)?|call_with_two_args)\(", src):
+            name = "?"
+            for pos, n in marks:
+                if pos < m.start():
+                    name = n
+                else:
+                    break
+            # the enclosing block: walk back to the `{` that is unmatched before the call
+            depth, i = 0, m.start()
+            while i > 0:
+                i -= 1
+                if src[i] == "}":
+                    depth += 1
+                elif src[i] == "{":
+                    if depth == 0:
+                        break
+                    depth -= 1
+            end = balanced(src, i)
+            region = src[m.start():end]
+            swallows = [p for p in SWALLOW if re.search(p, region)]
+            # a generic reducer that folds: look at the whole arm
+            arm_end = src.find("Reducer::", end) if "Reducer::" in src[end:end + 400] else end + 200
+            fold = bool(re.search(r"iter\.fold\(", src[m.start():max(end, arm_end)])) and name == "Generic"
+            out.append({"file": rel.split("/")[-1], "stage": name, "line": src.count("\n", 0, m.start()) + 1,
+                        "swallows": bool(swallows) or fold, "why": ",".join(swallows) + (",fold" if fold else "")})
+    return out
+
+
 def lean_str(s):
     return '"' + s.replace("\\", "\\\\").replace('"', '\\"') + '"'
 
@@ -181,6 +263,8 @@ def main():
         rows = extract()
         edges, loop_poll, anypoll_cg = native_backedges()
         gates = gate_sites()
+        tramp = trampoline_sites()
+        iters = iteration_error_sites()
     except Exception as e:  # noqa
         print(json.dumps({"error": str(e)}))
         return 2
@@ -222,13 +306,27 @@ def main():
                                        "true" if e["poll"] else "false") for e in edges]
     p[-1] = p[-1].rstrip(",")
     p += ["]", "",
+          "/-- A direct call `(func)(ctx)` of a compiled callee's native entry from a runtime helper of native code. -/",
+          "structure TrampolineSite where", "  fn : String", "  line : Nat", "  inLoop : Bool",
+          "deriving DecidableEq, Repr", "", "def trampolineSites : List TrampolineSite := ["]
+    p += ["  ⟨%s, %d, %s⟩," % (lean_str(x["fn"]), x["line"], "true" if x["in_loop"] else "false") for x in tramp]
+    p[-1] = p[-1].rstrip(",")
+    p += ["]", "",
+          "/-- A call of a Steel callback inside the iterator pipelines of `transduce` / lazy streams, and whether the code",
+          "handling its result drops an error (or folds without short-circuit). -/",
+          "structure IterSite where", "  file : String", "  stage : String", "  line : Nat", "  swallows : Bool",
+          "deriving DecidableEq, Repr", "", "def iterSites : List IterSite := ["]
+    p += ["  ⟨%s, %s, %d, %s⟩," % (lean_str(x["file"]), lean_str(x["stage"]), x["line"],
+                                   "true" if x["swallows"] else "false") for x in iters]
+    p[-1] = p[-1].rstrip(",")
+    p += ["]", "",
           "/-- `loop { self.safepoint_or_interrupt()?; … }` is still the head of the dispatch loop. -/",
           "def dispatchLoopPolls : Bool := %s" % ("true" if loop_poll else "false"), "",
           "/-- jit2/cgen.rs mentions a safepoint / the pause flag anywhere. -/",
           "def cgenMentionsPoll : Bool := %s" % ("true" if anypoll_cg else "false"), "",
           "end SteelVerif.C17", ""]
     open(os.path.join(VERIF, "lean/SteelVerif/C17/GenPollsTable.lean"), "w").write("\n".join(p))
-    print(json.dumps({"gate_sites": gates, "call_arms": rows, "native_edges": edges, "dispatch_loop_polls": loop_poll,
+    print(json.dumps({"trampoline_sites": tramp, "iteration_error_sites": iters, "gate_sites": gates, "call_arms": rows, "native_edges": edges, "dispatch_loop_polls": loop_poll,
                       "cgen_mentions_poll": anypoll_cg}, indent=1))
     return 0
 
